@@ -10,129 +10,38 @@ import (
 
 func init() {
 	register("C02", "other", "T2 Dominates + T4 GuardedBy (mark before deliver, deliver once), T6 WhoMayCall, linear normaliser (frame bookkeeping)",
-		"Decides the structure behind 'each block delivers exactly the new ancestry, once': in the confirmation walk an event is handed to the application only on the edge where it is not yet marked confirmed, and only after it has been marked with the block's frame on the same path (the walk may visit an event twice); the mark is written nowhere else and the application's per-event callback is reachable only through that walk; the walk descends only into parents of delivered events. Frame bookkeeping: on every path of onFrameDecided the frame persisted as last decided and the frame the election is reset to differ by exactly one (frame / frame+1, or FirstFrame-1 / FirstFrame when sealing), Bootstrap creates the election at last-decided+1, and the decided (frame, atropos) pair of the election result is what is applied. Roots (C02.roots): every frame slot of a root is written to the roots table in its own iteration of Store.AddRoot's slot loop, because a restarted node rebuilds the election from that table alone and a missing slot lets it decide a frame during Bootstrap, before the block callbacks exist (a block is swallowed, later blocks shift). Ancestry closure and 'the Atropos is a root of that frame' are graph facts and are not decided.",
+		"Decides the structure behind 'each block delivers exactly the new ancestry, once': in the confirmation walk an event is handed to the application only on the edge where it is not yet marked confirmed, and only after it has been marked with the block's frame on the same path (the walk may visit an event twice); the mark is written nowhere else and the application's per-event callback is reachable only through that walk; the walk descends only into parents of delivered events (the filter may be a closure of confirmEvents, a closure that forwards to a module function, or a method bound to a struct built there whose fields are assigned nowhere else; parents may be pushed one by one or as a whole list, the push being recognised by what the callee does). Frame bookkeeping (per path, over the definitions that reach the Reset): on every path of onFrameDecided the frame persisted as last decided and the frame the election is reset to differ by exactly one (frame / frame+1, or FirstFrame-1 / FirstFrame when sealing), Bootstrap creates the election at last-decided+1, and the decided (frame, atropos) pair of the election result is what is applied. Roots (C02.roots): every frame slot of a root is written to the roots table in its own iteration of Store.AddRoot's slot loop, because a restarted node rebuilds the election from that table alone and a missing slot lets it decide a frame during Bootstrap, before the block callbacks exist (a block is swallowed, later blocks shift). Ancestry closure and 'the Atropos is a root of that frame' are graph facts and are not decided.",
 		[]string{"the event source returns the events that were processed", "application callbacks are opaque"},
 		runC02)
-}
-
-// frameBookkeeping is shared by C02, C08 and C09.
-func frameBookkeeping(c *core.Ctx) {
-	p := c.P
-	f := c.Fn("abft.Orderer.onFrameDecided")
-	frame := f.Param(0)
-	ldfF := "abft.LastDecidedState.LastDecidedFrame"
-	namer := func(e ast.Expr) string {
-		if varOf(f, e) == frame {
-			return "frame"
-		}
-		if cst, ok := f.ObjOf(e).(*types.Const); ok && p.ObjName(cst) == "abft.FirstFrame" {
-			return "first"
-		}
-		return ""
-	}
-	resets := f.CallsTo("abft/election.Election.Reset")
-	c.ExpectAtLeast("election resets in onFrameDecided", len(resets), 2)
-	sets := assignsToField(f, ldfF)
-	c.Need(len(sets) >= 2, "onFrameDecided assigns LastDecidedFrame on both paths")
-	for _, r := range resets {
-		// the LastDecidedFrame assignment that is on the same path
-		var same *assignment
-		for i := range sets {
-			if f.CanReach(sets[i].Pt, r.Pt) || f.CanReach(r.Pt, sets[i].Pt) {
-				// must be exclusive with the other assignment
-				same = &sets[i]
-			}
-		}
-		ok := false
-		if same != nil && same.RHS != nil && len(r.Call.Args) == 2 {
-			a := core.Linearize(f.Info(), resolveLocal(f, r.Call.Args[1]), namer)
-			b := core.Linearize(f.Info(), resolveLocal(f, same.RHS), namer)
-			// a - b == 1
-			diffOK := a.C.Int64()-b.C.Int64() == 1 && len(a.Coef) == len(b.Coef)
-			for k, v := range a.Coef {
-				if w, has := b.Coef[k]; !has || v.Cmp(w) != 0 {
-					diffOK = false
-				}
-			}
-			ok = diffOK
-		}
-		c.Check(ok, "election restarts one frame above the persisted last decided frame", "linear normaliser", r.Pos(), "Reset(·, x+1) is paired with LastDecidedFrame = x on the same path", "the election is restarted at a frame that is not last-decided + 1: frames would be skipped or decided twice")
-	}
-	// the state is persisted on every non-error path
-	pers := core.Points(f.CallsTo("abft.Store.SetLastDecidedState"))
-	okP := len(pers) >= 1
-	for _, rp := range returnsWith(f, 1, func(e ast.Expr) bool { return core.IsNil(f.Info(), e) }) {
-		if o, _ := f.MustPassBefore(pers, rp); !o {
-			okP = false
-		}
-	}
-	c.Check(okP, "last decided frame is persisted on every successful path", "T2 Dominates", f.Pos(), "SetLastDecidedState dominates every nil-error return", "a decided frame can be left unpersisted")
-	// Bootstrap: election.New(validators, last decided + 1, ...)
-	bs := c.Fn("abft.Orderer.Bootstrap")
-	news := bs.CallsTo("abft/election.New")
-	okN := len(news) == 1 && len(news[0].Call.Args) == 4
-	if okN {
-		l := core.Linearize(bs.Info(), resolveLocal(bs, news[0].Call.Args[1]), func(e ast.Expr) string {
-			if isCallTo(bs, e, "abft.Store.GetLastDecidedFrame") != nil {
-				return "last"
-			}
-			return ""
-		})
-		okN = len(l.Coef) == 1 && coefIs(l, "last", 1) && l.C.Int64() == 1
-		okN = okN && isCallTo(bs, news[0].Call.Args[0], "abft.Store.GetValidators") != nil
-	}
-	c.Check(okN, "Bootstrap creates the election at last decided + 1 with the stored validators", "provenance", bs.Pos(), "election.New(store.GetValidators(), store.GetLastDecidedFrame()+1, ·, ·)", "a restarted election does not continue at the persisted frame / validators")
 }
 
 func runC02(c *core.Ctx) {
 	p := c.P
 	c.Clause("C02.once", func() {
 		f := c.Fn("abft.Lachesis.confirmEvents")
-		// the filter closure: the literal handed to the walk (directly or through a local)
-		var l *core.FuncInfo
-		for _, ws := range f.CallsTo("abft.Orderer.dfsSubgraph") {
-			if len(ws.Call.Args) == 2 {
-				if lit, ok := resolveLocal(f, ws.Call.Args[1]).(*ast.FuncLit); ok {
-					l = c.P.LitInfo(lit)
-				}
-			}
-		}
-		c.Need(l != nil, "confirmEvents passes a filter closure to dfsSubgraph")
-		ev, frame := l.Param(0), f.Param(0)
+		// the filter handed to the walk (directly or through a local): a closure, a closure that only
+		// forwards to a module function, or a method bound to a struct built here (c02FilterOf)
+		frame := f.Param(0)
 		cb := f.ParamNamed("onEventConfirmed")
 		if cb == nil {
 			cb = f.Param(2)
 		}
-		// a closure that only forwards to a method: the method is the filter, and its parameters stand for
-		// the visited event, the block's frame and the callback that the closure hands over
-		if fw, ok := c02Forwarding(l); ok && fw.G.Type.Params != nil {
-			var ev2, frame2, cb2 *types.Var
-			for _, fl := range fw.G.Type.Params.List {
-				for _, nm := range fl.Names {
-					pv, _ := fw.G.Info().Defs[nm].(*types.Var)
-					_, cv, bound := fw.bindVar(pv)
-					switch {
-					case !bound || cv == nil:
-					case cv == ev:
-						ev2 = pv
-					case cv == frame:
-						frame2 = pv
-					case cv == cb:
-						cb2 = pv
-					}
-				}
-			}
-			if ev2 != nil {
-				l, ev, frame, cb = fw.G, ev2, frame2, cb2
+		var flt c02Filter
+		found := false
+		for _, ws := range f.CallsTo("abft.Orderer.dfsSubgraph") {
+			if len(ws.Call.Args) == 2 && !found {
+				flt, found = c02FilterOf(f, ws.Call.Args[1], frame, cb)
 			}
 		}
-		deliver := l.CallsMatching(func(cs *core.CallSite) bool { return cs.Callee == types.Object(cb) })
+		c.Need(found && flt.fn != nil, "confirmEvents passes a filter (closure or bound method) to dfsSubgraph")
+		l, ev := flt.fn, flt.ev
+		deliver := l.CallsMatching(func(cs *core.CallSite) bool { return flt.isCb(cs.Call.Fun) })
 		c.ExpectAtLeast("delivery sites", len(deliver), 1)
 		marks := l.CallsTo("abft.Store.SetEventConfirmedOn")
 		gets := l.CallsTo("abft.Store.GetEventConfirmedOn")
 		c.Need(len(marks) == 1 && len(gets) == 1, "the closure reads and writes the confirmed mark once each")
 		isEvID := func(e ast.Expr) bool { return ev != nil && c01MethodOn(l, e, "ID") == ev }
-		c.Check(isEvID(marks[0].Call.Args[0]) && isEvID(gets[0].Call.Args[0]) && frame != nil && canonVar(l, varOf(l, marks[0].Call.Args[1])) == frame, "mark is read and written for the visited event with the block's frame", "provenance", marks[0].Pos(), "Get/SetEventConfirmedOn(e.ID(), frame)", "the confirmed mark is not keyed by the visited event or not set to the block's frame")
+		c.Check(isEvID(marks[0].Call.Args[0]) && isEvID(gets[0].Call.Args[0]) && flt.isFrame(marks[0].Call.Args[1]), "mark is read and written for the visited event with the block's frame", "provenance", marks[0].Pos(), "Get/SetEventConfirmedOn(e.ID(), frame)", "the confirmed mark is not keyed by the visited event or not set to the block's frame")
 		// the value read
 		var dv *types.Var
 		for _, a := range assignments(l) {
@@ -204,7 +113,12 @@ func runC02(c *core.Ctx) {
 			}
 		}
 		fc := f.CallsMatching(func(cs *core.CallSite) bool { return cs.Callee == types.Object(filter) })
-		push := f.CallsMatching(func(cs *core.CallSite) bool { return methodNamed(cs.Name, "Push") })
+		// pushes onto the stack of the walk: one element at a time or all elements of a list at once,
+		// classified by what the callee does (c02PushKind)
+		push := f.CallsMatching(func(cs *core.CallSite) bool {
+			single, bulk := c02PushKind(cs)
+			return single || bulk
+		})
 		c.Need(len(fc) == 1 && len(push) >= 1, "dfsSubgraph filters each event and pushes parents")
 		// the event that was filtered
 		var filtered *types.Var
@@ -222,8 +136,11 @@ func runC02(c *core.Ctx) {
 			c.Check(ok && d, "parents are visited only for accepted events", "T4 GuardedBy", ps.Pos(), "stack.Push(parent) is reached only on the filter(event) == true edge of the same iteration", "parents of a rejected (already confirmed) event are walked: "+f.DescribePath(wit))
 			// what is pushed are the filtered event's parents: the push is made once per element of an
 			// iteration over event.Parents() (ranged or indexed, possibly through a local)
+			// — or the whole list event.Parents() is pushed at once
 			okP := false
-			if it, isIt := c01IterationOf(f, enclosingLoop(f, ps.Pos())); isIt && it.FromZero && it.Coll != nil && len(ps.Call.Args) == 1 {
+			if _, bulk := c02PushKind(ps); bulk {
+				okP = len(ps.Call.Args) == 1 && filtered != nil && c01MethodOn(f, ps.Call.Args[0], "Parents") == filtered
+			} else if it, isIt := c01IterationOf(f, enclosingLoop(f, ps.Pos())); isIt && it.FromZero && it.Coll != nil && len(ps.Call.Args) == 1 {
 				okP = c01MethodOn(f, it.Coll, "Parents") == filtered && filtered != nil && it.IsElem(ps.Call.Args[0], c01Resolver(f))
 			}
 			c.Check(okP, "the walk follows the parents relation", "provenance", ps.Pos(), "pushes each element of event.Parents() of the filtered event", "the walk does not push the event's parents")
@@ -244,17 +161,16 @@ func runC02(c *core.Ctx) {
 		if ce := p.Func("abft.Lachesis.confirmEvents"); ce != nil {
 			for _, lit := range allLits(ce) {
 				owner[lit] = true
-				if fw, ok := c02Forwarding(lit); ok {
-					only := true
-					for _, g := range p.Funcs() {
-						for _, cs := range g.Calls() {
-							if cs.Callee == types.Object(fw.G.Obj) && g != lit {
-								only = false
-							}
-						}
-					}
-					if only {
-						owner[fw.G] = true
+			}
+			// … or the function that the filter handed to the walk consists of (forwarding target, bound
+			// method) when the module uses it for nothing else
+			for _, ws := range ce.CallsTo("abft.Orderer.dfsSubgraph") {
+				if len(ws.Call.Args) != 2 {
+					continue
+				}
+				if flt, ok := c02FilterOf(ce, ws.Call.Args[1], ce.Param(0), ce.Param(2)); ok {
+					for _, g := range flt.own {
+						owner[g] = true
 					}
 				}
 			}
@@ -336,8 +252,13 @@ func runC02(c *core.Ctx) {
 		}
 		// applyAtropos receives them unchanged
 		od := c.Fn("abft.Orderer.onFrameDecided")
-		aa := od.CallsTo("abft.OrdererCallbacks.ApplyAtropos")
-		ok := len(aa) == 1 && varOf(od, aa[0].Call.Args[0]) == od.Param(0) && varOf(od, aa[0].Call.Args[1]) == od.Param(1)
+		// (the callback field may be read into a local before the nil test and the call)
+		aa := c02FieldCalls(od, "abft.OrdererCallbacks.ApplyAtropos")
+		ok := len(aa) >= 1
+		for _, cs := range aa {
+			ok = ok && len(cs.Call.Args) == 2 && od.Param(0) != nil && od.Param(1) != nil &&
+				canonVar(od, varOf(od, cs.Call.Args[0])) == od.Param(0) && canonVar(od, varOf(od, cs.Call.Args[1])) == od.Param(1)
+		}
 		c.Check(ok, "the block callback gets the decided frame and Atropos", "provenance", od.Pos(), "ApplyAtropos(frame, atropos)", "the block callback is not given the decided frame/Atropos")
 	})
 	c02RootsPersisted(c)
